@@ -5,12 +5,35 @@ CONFIG = {
         "name": "logic", "pkg": "./data/transactions/logic/", "run": "^TestVerifC32$",
         "files": ["data/transactions/logic/zz_verif_c32_test.go"],
         "util": [("data/transactions/logic", "logic")],
-        "env": {"quick": {"VERIF_C32_N": 150}, "thorough": {"VERIF_C32_N": 1500, "VERIF_C32_EXTRA": 150000}},
+        "env": {"quick": {"VERIF_C32_N": 60}, "thorough": {"VERIF_C32_N": 1200, "VERIF_C32_EXTRA": 250000}},
         "timeout": {"quick": 900, "thorough": 3000},
     }],
-    "rule": "TODO",
+    "rule": "53 opcodes (+ - * / % addw mulw divw divmodw exp expw sqrt shl shr bitlen < > <= >= && || == != ! | & ^ ~ itob btoi, "
+            "b+ b- b* b/ b% bsqrt b< b> b<= b>= b== b!= b| b& b^ b~, getbit setbit getbyte setbyte extract_uint16/32/64), each run as "
+            "'push operands; op' through the REAL evaluator (EvalSignatureFull; every 9th case EvalContract), opcode byte looked up in "
+            "OpsByName; outcome read through the evaluator's EvalTracer hook after the opcode's step (final stack | err | panic). "
+            "Every opcode at EVERY AVM version that has it, both modes (smoke grid); then at v14 with every 5th case at a random older "
+            "version. Operands: boundary grid (0 1 2 3 7 8 9 63..65 127..129 255..257 2^16 2^31 2^32+-1 2^62 2^63+-1 2^64-3..2^64-1, "
+            "perfect squares +-1) squared for two-operand uint ops; exact overflow boundaries (max/a -1,0,+1 for mul/mulw, 2^64-1-a for plus/addw); "
+            "all shift counts 0..70; exp/expw: bases 0..17 x all exponents to 70/135, and for ~100 (thorough ~2400) bases the largest exponent that "
+            "fits 2^64 / 2^128, its neighbours and a random one; sqrt: r^2-1, r^2, r^2+1, (r+1)^2-1, (r+1)^2 around boundary and random roots; "
+            "divw hi in {y-1,y,y+1}; divmodw 6^4 corner grid + random 128/128; byte strings: lengths 0,1,2,8,9,32,33,63,64,65,66 all-00/all-ff/"
+            "leading zeros/random as a grid for byte math, random up to 66 bytes (528 bits) incl. equal values with different padding, a+-1, exact "
+            "multiples; bitwise ops up to 120 bytes and one 512-byte (thorough 4096-byte) pair; getbit/setbit/getbyte/setbyte/extract: every index around the end of "
+            "0..5(12)-byte strings, indexes 2^63, 2^64-1, 2^64-n (wrapping end), values 0,1,2 / 255,256; mixed-type == and !=. "
+            "Non-trivial = some operand is non-zero / non-empty; distinct = distinct case lines.",
     "exhaustive": {"quick": False, "thorough": False},
-    "explanation": "TODO",
-    "assumptions": [],
-    "trusted_base": [],
+    "explanation": "the theorems hold for ALL operands (every 64-bit word, every byte string up to 4096 bytes; sqrt by loop invariant, exp/expw/bytes by "
+                   "induction); the cases validate the transcription against the real evaluator and apply the proved oracle (meets = sat) to the "
+                   "implementation's own outputs",
+    "assumptions": [
+        "math/bits.Add64/Mul64/Div64/Len64/Len8 and math/big.Int SetBytes/Bytes/Add/Sub/Mul/Div/Mod/QuoRem/Sqrt/Rsh/Uint64/BitLen compute their documented "
+        "results (Go standard library); big.Int.Div/Mod on non-negative operands = floor division",
+        "Go unsigned arithmetic and shifts wrap modulo 2^64; byte(x) truncates (language specification)",
+        "operands reach the opcode function as the evaluator's stackValue {Uint | Bytes != nil}; step()'s generic arg-type / cost / stack-height / "
+        "4096-byte checks are C31's subject and are exercised, not modelled, here",
+    ],
+    "trusted_base": ["modelled: data/transactions/logic/eval.go opPlus..opBytesZero (arithmetic, comparison, bitwise, byte-math, conversion, wide, "
+                     "getbit/setbit/getbyte/setbyte, extract_uintN) as word-level Gallina (coq/model/AvmArith.v); the specification table "
+                     "coq/model/AvmArithSpec.v (unbounded N arithmetic, positional big-endian value) is what 'specified result' means"],
 }
